@@ -23,9 +23,11 @@ func methodOption(args slip.List, p *slip.Printer) Node {
 	}
 	mo.sll = argsFromList(args[0], p)
 	args = args[1:]
-	if ss, ok := args[0].(slip.String); ok {
-		mo.doc = &Doc{text: string(ss), nl: true}
-		args = args[1:]
+	if 0 < len(args) { // a method may have no forms at all
+		if ss, ok := args[0].(slip.String); ok {
+			mo.doc = &Doc{text: string(ss), nl: true}
+			args = args[1:]
+		}
 	}
 	for _, v := range args {
 		mo.children = append(mo.children, buildNode(v, p))
